@@ -34,6 +34,22 @@ def r04_4(ctx):
             good = isinstance(v, ast.Tuple) and len(v.elts) == 2 and isinstance(v.elts[0], ast.Call) and \
                 fi.callee(v.elts[0]) in CLOCKS and ast.unparse(v.elts[1]) == P[3]
             ctx.ob('R04.4', 'marker-is-(clock, exitcode)', good, fi, n, 'marker = %s' % ast.unparse(v))
+            # the marker is the *first* detection: its time starts the grace period, its status is that of the
+            # worker that ran the job.  The reaper comes back to the same job on every later pass that reaps
+            # anybody (the owner stays "gone"), so the write itself, or every call of it, must be once-only.
+            jp = P[1]
+            cn = fi.cfg.node_containing(n)
+            unset = lambda f_, x, j: q.has_guard(f_, x, j + '._worker_lost is None', True) or \
+                q.has_guard(f_, x, j + '._worker_lost', False)
+            once = bool(cn) and all(unset(fi, x, jp) for x in cn)
+            if not once:
+                je_ = m.func('pool:Pool._join_exited_workers')
+                sites = [(x, c) for (x, c) in q.calls(je_, lambda t: t.endswith('.on_job_process_lost'))]
+                once = bool(sites) and all(unset(je_, x, ast.unparse(c.args[0])) for (x, c) in sites)
+            ctx.ob('R04.4', 'marker-written-once-per-job', once, fi, n,
+                   'the marker is set only while it is still unset' if once else
+                   'the marker (time, status) is overwritten on every later pass of the reaper that reaps any worker: '
+                   'the grace period starts again and the status becomes that of "no such worker" (0)')
     je = m.func('pool:Pool._join_exited_workers')
     RA = ReaperAnchors(ctx)
     cfg = je.cfg
@@ -244,6 +260,8 @@ def run(ctx):
 
 _P = 'billiard/pool.py'
 MUTANTS = [
+    ('lost-marker-overwritten-on-every-pass', _P, "        if job._worker_lost is None:\n            # keep the first detection: the grace period starts there and\n            # the status is the one of the worker that ran the job.\n            job._worker_lost = (monotonic(), exitcode)\n",
+     "        job._worker_lost = (monotonic(), exitcode)\n", 'R04.4'),
     ('lost-only-for-nonzero-status', _P, "                    if not job.ready():\n                        exitcode = exitcodes.get(acked_by_gone) or 0\n",
      "                    exitcode = exitcodes.get(acked_by_gone)\n                    if exitcode and not job.ready():\n", 'R04.4'),
     ('cancelled-refused-without-handshake', _P, "            if self._cancelled and self._send_ack:\n", "            if self._cancelled:\n", 'R03.5'),
